@@ -89,7 +89,77 @@ func famPhases(t *testing.T, seed int64, steps int) *Cluster {
 	restores := 0
 	phases := 8 + rng.Intn(8)
 	for p := 0; p < phases; p++ {
-		switch op := rng.Intn(20); {
+		switch op := rng.Intn(26); {
+		case op >= 20 && op < 22: // motif: the leader is cut off with writes nobody sees; the others move on
+			if l := c.Leader(); l != "" {
+				c.isolate(l)
+				for i := 1 + rng.Intn(3); i > 0; i-- {
+					c.Apply(l, 0)
+					c.Settle("client")
+				}
+				c.dropPendingFrom(l)
+				c.Drive(400*time.Millisecond, allow, func() bool { x := c.Leader(); return x != "" && x != l })
+				if x := c.Leader(); x != "" && x != l {
+					for i := 1 + rng.Intn(3); i > 0; i-- {
+						c.Apply(x, 0)
+						c.Settle("client")
+					}
+				}
+			}
+		case op == 22: // motif: a follower falls behind while the others snapshot and compact
+			if l := c.Leader(); l != "" {
+				f := pickUp()
+				if f != "" && f != l {
+					c.isolate(f)
+					for i := 3 + rng.Intn(5); i > 0; i-- {
+						c.Apply(l, 0)
+						c.Settle("client")
+						c.Drive(15*time.Millisecond, allow, nil)
+					}
+					for _, n := range c.Nodes {
+						if n.Up && n.ID != f {
+							c.UserSnapshot(n.ID)
+							c.Settle("client")
+						}
+					}
+				}
+			}
+		case op == 23: // motif: a server restarts at once (same term, nothing learnt in between)
+			if s := pickUp(); s != "" {
+				c.Crash(s)
+				c.Settle("crash")
+				c.Start(s)
+				c.Settle("restart")
+			}
+		case op == 24: // motif: backlog in the leader's FSM while a membership change commits and a snapshot is asked for
+			if l := c.Leader(); l != "" {
+				c.byID[l].FSM.SetGated(true)
+				for i := 1 + rng.Intn(3); i > 0; i-- {
+					c.Apply(l, 0)
+					c.Settle("client")
+				}
+				c.Drive(40*time.Millisecond, allow, nil)
+				cmds := []string{"addnonvoter", "demote", "addvoter", "remove"}
+				c.Member(l, cmds[rng.Intn(len(cmds))], c.Opt.Servers[rng.Intn(len(c.Opt.Servers))], 0, 0)
+				c.Settle("client")
+				c.UserSnapshot(l)
+				c.Settle("client")
+				c.Drive(150*time.Millisecond, allow, nil)
+				for i := 0; i < 6; i++ {
+					c.byID[l].FSM.Release(1)
+					c.Settle("fsm")
+					c.Drive(15*time.Millisecond, allow, nil)
+				}
+			}
+		case op == 25: // motif: leadership handed to a server that is cut off (the transfer fails)
+			if l := c.Leader(); l != "" {
+				f := pickUp()
+				if f != "" && f != l {
+					c.isolate(f)
+					c.Transfer(l, f)
+					c.Settle("client")
+				}
+			}
 		case op < 3: // isolate one server, preferably the leader
 			s := leaderOr()
 			if s != "" {
